@@ -8,6 +8,7 @@ import GunYu.Proofs.Rdb.Chunk
 import GunYu.Proofs.Rdb.Frame
 import GunYu.Proofs.Rdb.FanOut
 import GunYu.Proofs.Rdb.Sem
+import GunYu.Proofs.Rdb.Decimal
 import GunYu.Model.Rdb.Dataset
 namespace GunYu.Rdb
 open GunYu GunYu.RedisSem
@@ -436,5 +437,982 @@ theorem parse_items (cfg : DCfg) (whole foot : Bytes) : ∀ (items : List Item),
           · simp only [parseLoop, hnx, hpl, List.singleton_append]
           · rw [hdb] at htr
             exact Trace.key (Or.inl ⟨e, rfl, ⟨he1, he2, he3⟩, he7⟩) htr
+
+/-! ## the oracle: keyspace lemmas and the multi-database target -/
+
+theorem del_absent (ks : Keyspace) (k : Bytes) (h : RedisSem.get ks k = none) : del ks k = ks := by
+  have ha := any_false_of_get_none ks k h
+  rw [List.any_eq_false] at ha
+  unfold del
+  rw [List.filter_eq_self]
+  intro a ha'
+  have := ha a ha'
+  simp at this
+  simp [this]
+
+theorem get_append_ne (ks : Keyspace) (x : Bytes × Val × Nat) (k : Bytes) (h : x.1 ≠ k) :
+    RedisSem.get (ks ++ [x]) k = RedisSem.get ks k := by
+  unfold RedisSem.get
+  rw [List.find?_append]
+  cases hf : ks.find? (fun e => e.1 == k) with
+  | some y => simp
+  | none => simp [h]
+
+theorem get_append_isSome (ks l : Keyspace) (k : Bytes) (h : (RedisSem.get ks k).isSome = true) :
+    (RedisSem.get (ks ++ l) k).isSome = true := by
+  unfold RedisSem.get at h ⊢
+  rw [List.find?_append]
+  cases hf : ks.find? (fun e => e.1 == k) with
+  | some y => simp
+  | none => simp [hf] at h
+
+theorem lower_restore : lower b!"restore" = b!"restore" := by decide
+
+theorem apply_restore (ks : Keyspace) (k t payload : Bytes) (opts : List Bytes) :
+    applyXCmd ks (cmdB b!"restore" (k :: t :: payload :: opts)) = doRestore ks k t payload (opts.map Arg.b) := by
+  simp [applyXCmd, applyCmd, cmdB, lower_restore, argBytes]
+
+theorem restore_fresh (ks : Keyspace) (k payload : Bytes) (ttl : Nat) (opts : List Bytes) (h : RedisSem.get ks k = none) :
+    applyXCmd ks (cmdB b!"restore" (k :: natToDec ttl :: payload :: opts)) =
+      some (ks ++ [(k, .restored payload, ttl)]) := by
+  rw [apply_restore]
+  simp only [doRestore, decToNat_natToDec, h, Option.isSome_none, Bool.false_and, Bool.false_eq_true, if_false]
+  rw [del_absent ks k h, put_new ks k _ _ h]
+
+/-- requests that act on the selected database's keyspace -/
+def keyCmd (c : Cmd) : Prop :=
+  lower c.name ≠ b!"select" ∧ lower c.name ≠ b!"script" ∧ lower c.name ≠ b!"function"
+
+theorem applyReq_key (t : TState) (c : Cmd) (h : keyCmd c) :
+    applyReq t c = (applyXCmd (t.dbs t.cur) c).map (fun ks => t.setDb t.cur ks) := by
+  obtain ⟨h1, h2, h3⟩ := h
+  simp [applyReq, h1, h2, h3]
+
+theorem setDb_setDb (t : TState) (d : Int) (a b : Keyspace) : (t.setDb d a).setDb d b = t.setDb d b := by
+  simp only [TState.setDb, TState.mk.injEq, true_and]
+  funext x
+  by_cases hx : x = d <;> simp [hx]
+
+theorem setDb_self (t : TState) : t.setDb t.cur (t.dbs t.cur) = t := by
+  cases t with
+  | mk cur dbs =>
+    simp only [TState.setDb, TState.mk.injEq, true_and]
+    funext x
+    by_cases hx : x = cur <;> simp [hx]
+
+theorem applyReqs_lift (cs : List Cmd) : ∀ (t : TState) (ks' : Keyspace), (∀ c ∈ cs, keyCmd c) →
+    applyCmds (t.dbs t.cur) cs = some ks' → applyReqs t cs = some (t.setDb t.cur ks') := by
+  induction cs with
+  | nil =>
+    intro t ks' _ h
+    simp only [applyCmds, Option.some.injEq] at h
+    subst h
+    simp [applyReqs, setDb_self]
+  | cons c cs ih =>
+    intro t ks' hn h
+    simp only [applyCmds] at h
+    cases hx : applyXCmd (t.dbs t.cur) c with
+    | none => simp [hx] at h
+    | some ks1 =>
+      simp only [hx] at h
+      simp only [applyReqs, applyReq_key t c (hn c (List.mem_cons_self ..)), hx, Option.map_some]
+      have := ih (t.setDb t.cur ks1) ks' (fun x hx' => hn x (List.mem_cons_of_mem _ hx'))
+        (by simpa [TState.setDb] using h)
+      rw [this]
+      show some ((t.setDb t.cur ks1).setDb t.cur ks') = _
+      rw [setDb_setDb]
+
+theorem applyReqs_append (t : TState) (a b : List Cmd) :
+    applyReqs t (a ++ b) = (applyReqs t a).bind (fun t' => applyReqs t' b) := by
+  induction a generalizing t with
+  | nil => simp [applyReqs]
+  | cons c a ih =>
+    simp only [List.cons_append, applyReqs]
+    cases applyReq t c with
+    | none => simp
+    | some t' => simp [ih]
+
+theorem lower_select : lower b!"select" = b!"select" := by decide
+
+theorem applyReq_select (t : TState) (D : Int) (h : 0 ≤ D) :
+    applyReq t (cmdB b!"select" [intToDec D]) = some { t with cur := D } := by
+  have hn : ¬ D < 0 := by omega
+  simp only [applyReq, cmdB, lower_select, if_true, List.map_cons, List.map_nil, intToDec, hn, if_false,
+    decToNat_natToDec]
+  have : Int.ofNat D.toNat = D := Int.toNat_of_nonneg h
+  rw [this]
+
+/-! ## one worker -/
+
+/-- the replay loop of a single worker (what `fanOut` is for `parallel = 1`) -/
+def runOne (cfg : RCfg) : List Entry → Worker → Exists → Worker × Exists × Bool
+  | [], w, ex => (w, ex, true)
+  | e :: es, w, ex =>
+    let r := workerStep cfg w ex e
+    if r.2.2 then runOne cfg es r.1 r.2.1 else r
+
+theorem workerOf_one (e : Entry) (idx : Nat) : workerOf 1 e idx = 0 := by
+  unfold workerOf
+  split <;> exact Nat.mod_one _
+
+theorem fanOut_one (cfg : RCfg) (es : List Entry) : ∀ (idx : Nat) (w : Worker) (ex : Exists),
+    fanOut cfg es idx [w] ex = ([(runOne cfg es w ex).1], (runOne cfg es w ex).2.1, (runOne cfg es w ex).2.2) := by
+  induction es with
+  | nil => intro idx w ex; rfl
+  | cons e es ih =>
+    intro idx w ex
+    simp only [fanOut, List.length_singleton, workerOf_one, List.getD_cons_zero, List.set_cons_zero, runOne]
+    cases hr : workerStep cfg w ex e with
+    | mk w' r2 =>
+      obtain ⟨ex', ok⟩ := r2
+      cases ok with
+      | true => simp [ih]
+      | false => simp
+
+theorem runOne_append (cfg : RCfg) (a b : List Entry) : ∀ (w : Worker) (ex : Exists) (w1 : Worker) (ex1 : Exists),
+    runOne cfg a w ex = (w1, ex1, true) → runOne cfg (a ++ b) w ex = runOne cfg b w1 ex1 := by
+  induction a with
+  | nil =>
+    intro w ex w1 ex1 h
+    simp only [runOne, Prod.mk.injEq] at h
+    obtain ⟨rfl, rfl, _⟩ := h
+    rfl
+  | cons e a ih =>
+    intro w ex w1 ex1 h
+    simp only [runOne, List.cons_append] at h ⊢
+    cases hok : (workerStep cfg w ex e).2.2 with
+    | true =>
+      simp only [hok, if_true] at h ⊢
+      exact ih _ _ _ _ h
+    | false =>
+      simp only [hok, Bool.false_eq_true, if_false] at h
+      rw [h] at hok
+      simp at hok
+
+theorem cfg_tick0 (cfg : RCfg) (h : cfg.tick = 0) (n : Nat) :
+    { cfg with now := cfg.now + cfg.tick * n } = cfg := by
+  cases cfg
+  simp_all
+
+/-- the DB switch of `workerStep`, seen by the target -/
+theorem afterSelect_apply (cfg : RCfg) (w : Worker) (e : Entry) (T : TState) (db : Nat)
+    (hdb : e.db = (db : Int)) (hcur : w.cur = T.cur) (hpos : 0 ≤ mapDb cfg (db : Int)) :
+    ∃ log, (afterSelect cfg w e).log = w.log ++ log ∧ (afterSelect cfg w e).cur = mapDb cfg (db : Int) ∧
+      applyReqs T log = some { T with cur := mapDb cfg (db : Int) } := by
+  have hne : ¬ ((db : Int) = -1) := by omega
+  unfold afterSelect
+  simp only [hdb, hne, if_false]
+  by_cases hc : mapDb cfg (db : Int) ≠ w.cur
+  · simp only [hc, ne_eq, not_false_eq_true, if_true]
+    refine ⟨[cmdB b!"select" [intToDec (mapDb cfg (db : Int))]], by simp, by simp, ?_⟩
+    simp [applyReqs, applyReq_select T _ hpos]
+  · simp only [hc, if_false]
+    have : mapDb cfg (db : Int) = T.cur := by rw [← hcur]; exact Decidable.of_not_not hc
+    refine ⟨[], by simp, by rw [this, hcur], ?_⟩
+    simp only [applyReqs, this]
+
+/-! ## the existence table -/
+
+theorem exists_add_has (ex : Exists) (D : Int) (k : Bytes) (D' : Int) (k' : Bytes)
+    (h : (Exists.add ex D k).has D' k' = true) : ex.has D' k' = true ∨ (D' = D ∧ k' = k) := by
+  unfold Exists.add at h
+  split at h
+  · exact Or.inl h
+  · simp only [Exists.has, List.any_cons, Bool.or_eq_true, Bool.and_eq_true, beq_iff_eq] at h
+    rcases h with ⟨h1, h2⟩ | h
+    · exact Or.inr ⟨h1.symm, h2.symm⟩
+    · exact Or.inl (by simpa [Exists.has] using h)
+
+theorem exists_del_has (ex : Exists) (D : Int) (k : Bytes) (D' : Int) (k' : Bytes)
+    (h : (Exists.del ex D k).has D' k' = true) : ex.has D' k' = true := by
+  simp only [Exists.del, Exists.has, List.any_filter, List.any_eq_true, Bool.and_eq_true] at h ⊢
+  obtain ⟨x, hx, _, h2⟩ := h
+  exact ⟨x, hx, h2⟩
+
+/-- `ex'` knows at most the keys `ex` knows and `(D, k)` -/
+def ExGrows (ex ex' : Exists) (D : Int) (k : Bytes) : Prop :=
+  ∀ D' k', ex'.has D' k' = true → ex.has D' k' = true ∨ (D' = D ∧ k' = k)
+
+theorem exGrows_refl (ex : Exists) (D : Int) (k : Bytes) : ExGrows ex ex D k := fun _ _ h => Or.inl h
+
+theorem exGrows_add {ex ex' : Exists} {D : Int} {k : Bytes} (h : ExGrows ex ex' D k) : ExGrows ex (ex'.add D k) D k := by
+  intro D' k' h'
+  rcases exists_add_has ex' D k D' k' h' with h1 | h1
+  · exact h D' k' h1
+  · exact Or.inr h1
+
+theorem exGrows_del {ex ex' : Exists} {D : Int} {k : Bytes} (h : ExGrows ex ex' D k) : ExGrows ex (ex'.del D k) D k :=
+  fun D' k' h' => h D' k' (exists_del_has ex' D k D' k' h')
+
+theorem exGrows_ite {ex a b : Exists} {D : Int} {k : Bytes} (c : Prop) [Decidable c]
+    (ha : ExGrows ex a D k) (hb : ExGrows ex b D k) : ExGrows ex (if c then a else b) D k := by
+  split <;> assumption
+
+theorem exGrows_trans {ex ex1 ex2 : Exists} {D : Int} {k : Bytes} (h1 : ExGrows ex ex1 D k) (h2 : ExGrows ex1 ex2 D k) :
+    ExGrows ex ex2 D k := by
+  intro D' k' h
+  rcases h2 D' k' h with h | h
+  · exact h1 D' k' h
+  · exact Or.inr h
+
+/-! ## replay of one entry -/
+
+theorem rewrite_self (k : Bytes) (cs : List Cmd) : cs.map (rewriteCmd k k) = cs := by
+  induction cs with
+  | nil => rfl
+  | cons c cs ih => simp [rewriteCmd, ih]
+
+theorem pobjOf_facts (k : Bytes) (o : ObjE) (hk : o.kind ≠ .other) :
+    otypeOf o.rtype = some (otOf o) ∧ otOf o ≠ .function ∧ otOf o ≠ .aux ∧ otOf o ≠ .module ∧
+    (pobjOf k o).isSplited = false ∧ (pobjOf k o).firstBin = true := by
+  refine ⟨otypeOf_rtype o hk, ?_, ?_, ?_, ?_, ?_⟩
+  · unfold otOf; cases hkk : o.kind <;> simp_all
+  · unfold otOf; cases hkk : o.kind <;> simp_all
+  · unfold otOf; cases hkk : o.kind <;> simp_all
+  · cases o <;> simp [pobjOf, PObj.isSplited]
+  · simp [pobjOf, PObj.firstBin]
+
+/-- an unsplit value that fits one request: ONE `restore key ttl payload …` -/
+theorem replay_restore (cfg : RCfg) (D : Int) (ex : Exists) (e : Entry) (k : Bytes) (o : ObjE)
+    (hobj : e.obj = pobjOf k o) (hkey : e.key = k) (hk : o.kind ≠ .other) (hv : viaRestore cfg o)
+    (hload : typeLoadable cfg.x.tgtMajor o.rtype = true) (hrht : cfg.replaceHashTag = false)
+    (hex : ex.has D k = false) :
+    ∃ opts ex', replayEntry cfg D ex e =
+      ([cmdB b!"restore" (k :: natToDec (ttlOf cfg.now e.expireAt) :: createValueDump o.rtype o.ser :: opts)],
+        ex', true) ∧ ExGrows ex ex' D k := by
+  obtain ⟨hot, hnf1, hnf2, _, hsplit, _⟩ := pobjOf_facts k o hk
+  obtain ⟨hon, hsz⟩ := hv
+  have hsize : ¬ ((pobjOf k o).valueDumpSize > cfg.maxBulk) := by
+    simp only [PObj.valueDumpSize, pobjOf]; omega
+  have hdump : (pobjOf k o).dump = createValueDump o.rtype o.ser := rfl
+  have hrt : (pobjOf k o).rtype = o.rtype := rfl
+  simp only [replayEntry, dstKey, hrht, Bool.false_eq_true, if_false, hobj, hkey]
+  simp only [hrt, hot, hnf1, hnf2, or_self, if_false, hon, hsplit, hsize, decide_false, Bool.or_self,
+    Bool.not_false, Bool.and_self, Bool.not_true, Bool.false_eq_true, hdump, hload, if_true, hex,
+    List.cons_append, List.nil_append]
+  exact ⟨_, _, rfl, exGrows_ite _ (exGrows_del (exGrows_refl _ _ _)) (exGrows_add (exGrows_refl _ _ _))⟩
+
+/-- an unsplit value that does not travel by RESTORE: probe, expansion, PEXPIRE -/
+theorem replay_expand (cfg : RCfg) (D : Int) (ex : Exists) (e : Entry) (k : Bytes) (o : ObjE)
+    (hobj : e.obj = pobjOf k o) (hkey : e.key = k) (hwf : o.wf) (hk : o.kind ≠ .other)
+    (hnv : ¬ viaRestore cfg o) (hrht : cfg.replaceHashTag = false) (hex : ex.has D k = false) :
+    ∃ ex', replayEntry cfg D ex e =
+      ([cmdB b!"exists" [k]] ++ o.cmds k ++
+        (if e.expireAt ≠ 0 then [cmdB b!"pexpire" [k, natToDec (ttlOf cfg.now e.expireAt)]] else []), ex', true) ∧
+      ExGrows ex ex' D k := by
+  obtain ⟨hot, hnf1, hnf2, hnf3, hsplit, hfb⟩ := pobjOf_facts k o hk
+  have hrt : (pobjOf k o).rtype = o.rtype := rfl
+  have hexec := execCmd_pobjOf cfg.x k o hwf hk
+  have hrc : (cfg.enableRestore && !(decide ((pobjOf k o).valueDumpSize > cfg.maxBulk) || (pobjOf k o).isSplited)) = false := by
+    cases hon : cfg.enableRestore with
+    | false => rfl
+    | true =>
+      have : (pobjOf k o).valueDumpSize > cfg.maxBulk := by
+        simp only [PObj.valueDumpSize, pobjOf]
+        unfold viaRestore at hnv
+        simp only [hon, true_and] at hnv
+        omega
+      simp [this]
+  simp only [replayEntry, dstKey, hrht, Bool.false_eq_true, if_false, hobj, hkey]
+  simp only [hrt, hot, hnf1, hnf2, or_self, if_false, hrc, Bool.not_false, if_true]
+  simp only [expandEntry, hnf3, if_false]
+  simp only [hrht, Bool.false_eq_true, if_false, hobj, hkey, hfb, if_true, hex, hexec, Option.map_some, rewrite_self]
+  exact ⟨_, rfl, exGrows_ite _ (exGrows_del (exGrows_ite _ (exGrows_del (exGrows_refl _ _ _))
+    (exGrows_add (exGrows_del (exGrows_refl _ _ _))))) (exGrows_ite _ (exGrows_del (exGrows_refl _ _ _))
+    (exGrows_add (exGrows_del (exGrows_refl _ _ _))))⟩
+
+theorem keyCmd_name (c : Cmd) (n : Bytes) (hc : c.name = n)
+    (h : lower n ≠ b!"select" ∧ lower n ≠ b!"script" ∧ lower n ≠ b!"function") : keyCmd c := by
+  subst hc; exact h
+
+theorem cmds_keyCmd (o : ObjE) (k : Bytes) : ∀ c ∈ o.cmds k, keyCmd c := by
+  intro c hc
+  unfold ObjE.cmds at hc
+  cases hkind : o.kind <;> simp only [hkind] at hc
+  · split at hc
+    · simp only [List.mem_singleton] at hc; subst hc; exact keyCmd_name _ b!"set" rfl (by decide)
+    · simp at hc
+  · obtain ⟨e, _, rfl⟩ := List.mem_map.mp hc; exact keyCmd_name _ b!"RPUSH" rfl (by decide)
+  · obtain ⟨e, _, rfl⟩ := List.mem_map.mp hc; exact keyCmd_name _ b!"SADD" rfl (by decide)
+  · obtain ⟨e, _, rfl⟩ := List.mem_map.mp hc; exact keyCmd_name _ b!"ZADD" rfl (by decide)
+  · obtain ⟨e, _, rfl⟩ := List.mem_map.mp hc; exact keyCmd_name _ b!"HSET" rfl (by decide)
+  · simp at hc
+
+/-- probe, expansion and PEXPIRE of a fresh key, next to the rest of the keyspace -/
+theorem apply_expand (ks : Keyspace) (k : Bytes) (o : ObjE) (exp ttl : Nat)
+    (hk : o.kind ≠ .other) (hne : o.nonempty) (hd : o.members.Nodup) (hfresh : RedisSem.get ks k = none)
+    (httl : exp = 0 → ttl = 0) :
+    applyCmds ks ([cmdB b!"exists" [k]] ++ o.cmds k ++
+        (if exp ≠ 0 then [cmdB b!"pexpire" [k, natToDec ttl]] else [])) =
+      some (ks ++ [(k, o.value, ttl)]) := by
+  rw [applyCmds_append, applyCmds_append]
+  simp only [applyCmds, apply_exists, Option.bind_some]
+  rw [cmds_frame ks k o hk hne hd hfresh]
+  simp only [Option.bind_some]
+  by_cases h0 : exp = 0
+  · simp [h0, applyCmds, httl h0]
+  · simp only [h0, ne_eq, not_false_eq_true, if_true, applyCmds, apply_pexpire, doPexpire,
+      decToNat_natToDec, get_frame ks k _ _ hfresh, put_frame ks k _ _ _ _ hfresh]
+
+/-- one chunk of a split hash table: (probe,) one HSET per pair of the chunk, PEXPIRE -/
+theorem replay_chunk (cfg : RCfg) (D : Int) (ex : Exists) (e : Entry) (key : Bytes) (ps : List (Bytes × Bytes))
+    (hkey : e.key = key) (hokey : e.obj.key = key) (hrt : e.obj.rtype = 4) (hsp : e.obj.isSplited = true)
+    (hps : hashPairs e.obj = some ps) (hrht : cfg.replaceHashTag = false)
+    (hprobe : e.obj.firstBin = true → ex.has D key = false) :
+    ∃ ex', replayEntry cfg D ex e =
+      ((if e.obj.firstBin then [cmdB b!"exists" [key]] else []) ++
+        ps.map (fun q => cmdB b!"HSET" [key, q.1, q.2]) ++
+        (if e.expireAt ≠ 0 then [cmdB b!"pexpire" [key, natToDec (ttlOf cfg.now e.expireAt)]] else []), ex', true) ∧
+      ExGrows ex ex' D key := by
+  have hot : otypeOf 4 = some .hash := by decide
+  have hexec : execCmd cfg.x e.obj = some (ps.map (fun q => cmdB b!"HSET" [key, q.1, q.2])) := by
+    rw [execCmd_hash_chunk cfg.x e.obj hrt, hps, hokey]; rfl
+  simp only [replayEntry, dstKey, hrht, Bool.false_eq_true, if_false]
+  simp only [hrt, hot, hsp, Bool.or_true, Bool.not_true, Bool.and_false, Bool.not_false, if_true,
+    show ¬ (OType.hash = OType.function ∨ OType.hash = OType.aux) by decide, if_false]
+  simp only [expandEntry, show ¬ (OType.hash = OType.module) by decide, if_false]
+  simp only [hexec, Option.map_some, hkey, hrht, Bool.false_eq_true, if_false, rewrite_self]
+  cases hfb : e.obj.firstBin with
+  | true =>
+    simp only [hprobe hfb, Bool.false_eq_true, if_false, if_true]
+    exact ⟨_, rfl, exGrows_ite _ (exGrows_del (exGrows_ite _ (exGrows_del (exGrows_refl _ _ _))
+      (exGrows_add (exGrows_del (exGrows_refl _ _ _))))) (exGrows_ite _ (exGrows_del (exGrows_refl _ _ _))
+      (exGrows_add (exGrows_del (exGrows_refl _ _ _))))⟩
+  | false =>
+    simp only [Bool.false_eq_true, if_false, List.nil_append]
+    exact ⟨_, rfl, exGrows_ite _ (exGrows_del (exGrows_ite _ (exGrows_refl _ _ _)
+      (exGrows_add (exGrows_refl _ _ _)))) (exGrows_ite _ (exGrows_refl _ _ _)
+      (exGrows_add (exGrows_refl _ _ _)))⟩
+
+/-- the requests of one chunk on the oracle; `l` = the pairs already stored (`[]` = the key is absent) -/
+theorem apply_chunk (ks : Keyspace) (key : Bytes) (l ps : List (Bytes × Bytes)) (first : Bool) (exp ttl : Nat)
+    (hfresh : RedisSem.get ks key = none) (hnd : ((l ++ ps).map (·.1)).Nodup) (httl : exp = 0 → ttl = 0) :
+    applyCmds (if l = [] then ks else ks ++ [(key, .hash l, ttl)])
+      ((if first then [cmdB b!"exists" [key]] else []) ++
+        ps.map (fun q => cmdB b!"HSET" [key, q.1, q.2]) ++
+        (if exp ≠ 0 then [cmdB b!"pexpire" [key, natToDec ttl]] else [])) =
+      some (if l ++ ps = [] then ks else ks ++ [(key, .hash (l ++ ps), ttl)]) := by
+  have hprobe : ∀ ks' : Keyspace, applyCmds ks' (if first then [cmdB b!"exists" [key]] else []) = some ks' := by
+    intro ks'
+    cases first <;> simp [applyCmds, apply_exists]
+  have hexpire : ∀ (l' : List (Bytes × Bytes)) (t : Nat), (exp = 0 → t = ttl) →
+      applyCmds (ks ++ [(key, .hash l', t)]) (if exp ≠ 0 then [cmdB b!"pexpire" [key, natToDec ttl]] else []) =
+        some (ks ++ [(key, .hash l', ttl)]) := by
+    intro l' t ht
+    by_cases h0 : exp = 0
+    · simp [h0, applyCmds, ht h0]
+    · simp only [h0, ne_eq, not_false_eq_true, if_true, applyCmds, apply_pexpire, doPexpire,
+        decToNat_natToDec, get_frame ks key _ _ hfresh, put_frame ks key _ _ _ _ hfresh]
+  rw [applyCmds_append, applyCmds_append, hprobe]
+  simp only [Option.bind_some]
+  by_cases hl : l = []
+  · subst hl
+    cases ps with
+    | nil =>
+      simp only [if_true, List.map_nil, applyCmds, Option.bind_some, List.append_nil]
+      by_cases h0 : exp = 0
+      · simp [h0, applyCmds]
+      · simp [h0, applyCmds, apply_pexpire, doPexpire, decToNat_natToDec, hfresh]
+    | cons p ps =>
+      simp only [if_true, List.map_cons, applyCmds, apply_hset, doHset, hfresh, put_new ks key _ _ hfresh]
+      rw [hset_fold_frame ks key ps [(p.1, p.2)] 0 hfresh (by simpa using hnd)]
+      simp only [Option.bind_some, List.nil_append, List.cons_append, reduceCtorEq, if_false]
+      exact hexpire _ 0 (fun h0 => (httl h0).symm)
+  · have hne : l ++ ps ≠ [] := by simp [hl]
+    simp only [hl, hne, if_false]
+    rw [hset_fold_frame ks key ps l ttl hfresh hnd]
+    simp only [Option.bind_some]
+    exact hexpire _ ttl (fun _ => rfl)
+
+/-! ## one entry on the worker, seen by the target -/
+
+theorem workerStep_skipDb (cfg : RCfg) (w : Worker) (ex : Exists) (e : Entry) (db : Nat)
+    (hdb : e.db = (db : Int)) (hfd : cfg.filterDb (db : Int) = true) : workerStep cfg w ex e = (w, ex, true) := by
+  have hne : (db : Int) ≠ -1 := by omega
+  rw [workerStep_eq]
+  simp [hdb, hfd, hne]
+
+theorem workerStep_skipKey (cfg : RCfg) (w : Worker) (ex : Exists) (e : Entry) (T : TState) (db : Nat)
+    (hdb : e.db = (db : Int)) (hfd : cfg.filterDb (db : Int) = false) (hfk : cfg.filterKey e.key = true)
+    (hcur : w.cur = T.cur) (hpos : 0 ≤ mapDb cfg (db : Int)) :
+    ∃ w' log, workerStep cfg w ex e = (w', ex, true) ∧ w'.log = w.log ++ log ∧ w'.cur = mapDb cfg (db : Int) ∧
+      applyReqs T log = some { T with cur := mapDb cfg (db : Int) } := by
+  obtain ⟨log, h1, h2, h3⟩ := afterSelect_apply cfg w e T db hdb hcur hpos
+  refine ⟨afterSelect cfg w e, log, ?_, h1, h2, h3⟩
+  rw [workerStep_eq]
+  simp [hdb, hfd, hfk]
+
+/-- a replayed entry: the requests `replayEntry` issues go out after the DB switch -/
+theorem workerStep_reqs (cfg : RCfg) (w : Worker) (ex : Exists) (e : Entry) (T T' : TState) (db : Nat)
+    (cs : List Cmd) (ex' : Exists) (htick : cfg.tick = 0)
+    (hdb : e.db = (db : Int)) (hfd : cfg.filterDb (db : Int) = false) (hfk : cfg.filterKey e.key = false)
+    (hcur : w.cur = T.cur) (hpos : 0 ≤ mapDb cfg (db : Int))
+    (hrep : replayEntry cfg (mapDb cfg (db : Int)) ex e = (cs, ex', true))
+    (happ : applyReqs { T with cur := mapDb cfg (db : Int) } cs = some T') :
+    ∃ w' log, workerStep cfg w ex e = (w', ex', true) ∧ w'.log = w.log ++ log ∧ w'.cur = mapDb cfg (db : Int) ∧
+      applyReqs T log = some T' := by
+  obtain ⟨log, h1, h2, h3⟩ := afterSelect_apply cfg w e T db hdb hcur hpos
+  refine ⟨{ afterSelect cfg w e with log := (afterSelect cfg w e).log ++ cs }, log ++ cs, ?_, ?_, h2, ?_⟩
+  · rw [workerStep_eq]
+    simp only [hdb, hfd, hfk, Bool.false_eq_true, and_false, if_false, cfg_tick0 cfg htick]
+    rw [h2, hrep]
+  · simp only [h1, List.append_assoc]
+  · rw [applyReqs_append, h3]
+    simpa using happ
+
+/-- … and act on the mapped database when they are keyspace commands -/
+theorem workerStep_apply (cfg : RCfg) (w : Worker) (ex : Exists) (e : Entry) (T : TState) (db : Nat)
+    (cs : List Cmd) (ex' : Exists) (ks' : Keyspace) (htick : cfg.tick = 0)
+    (hdb : e.db = (db : Int)) (hfd : cfg.filterDb (db : Int) = false) (hfk : cfg.filterKey e.key = false)
+    (hcur : w.cur = T.cur) (hpos : 0 ≤ mapDb cfg (db : Int))
+    (hrep : replayEntry cfg (mapDb cfg (db : Int)) ex e = (cs, ex', true)) (hkc : ∀ c ∈ cs, keyCmd c)
+    (happ : applyCmds (T.dbs (mapDb cfg (db : Int))) cs = some ks') :
+    ∃ w' log, workerStep cfg w ex e = (w', ex', true) ∧ w'.log = w.log ++ log ∧ w'.cur = mapDb cfg (db : Int) ∧
+      applyReqs T log = some (TState.setDb { T with cur := mapDb cfg (db : Int) } (mapDb cfg (db : Int)) ks') :=
+  workerStep_reqs cfg w ex e T _ db cs ex' htick hdb hfd hfk hcur hpos hrep
+    (applyReqs_lift cs { T with cur := mapDb cfg (db : Int) } ks' hkc happ)
+
+theorem applyReqs_noop (cs : List Cmd) (T : TState)
+    (h : ∀ c ∈ cs, lower c.name = b!"script" ∨ lower c.name = b!"function") : applyReqs T cs = some T := by
+  induction cs with
+  | nil => rfl
+  | cons c cs ih =>
+    have hc := h c (List.mem_cons_self ..)
+    have hns : lower c.name ≠ b!"select" := by
+      rcases hc with hc | hc <;> (rw [hc]; decide)
+    simp only [applyReqs, applyReq, hns, if_false, hc, if_true]
+    exact ih (fun x hx => h x (List.mem_cons_of_mem _ hx))
+
+theorem replay_aux (cfg : RCfg) (D : Int) (ex : Exists) (e : Entry) (hrt : e.obj.rtype = 0xFA) :
+    ∃ cs, replayEntry cfg D ex e = (cs, ex, true) ∧ ∀ c ∈ cs, lower c.name = b!"script" ∨ lower c.name = b!"function" := by
+  have hot : otypeOf 0xFA = some .aux := by decide
+  have hexec : ∃ cs, execCmd cfg.x e.obj = some cs ∧ ∀ c ∈ cs, lower c.name = b!"script" ∨ lower c.name = b!"function" := by
+    unfold execCmd
+    simp only [hrt, hot]
+    split
+    · exact ⟨_, rfl, fun c hc => by simp only [List.mem_singleton] at hc; subst hc; exact Or.inl (show lower b!"script" = b!"script" by decide)⟩
+    · exact ⟨[], rfl, fun c hc => by simp at hc⟩
+  obtain ⟨cs, hcs, hn⟩ := hexec
+  refine ⟨cs, ?_, hn⟩
+  simp only [replayEntry, hrt, hot, or_true, if_true, hcs]
+
+theorem replay_function (cfg : RCfg) (D : Int) (ex : Exists) (e : Entry) (hrt : e.obj.rtype = 0xF5) :
+    ∃ cs, replayEntry cfg D ex e = (cs, ex, true) ∧ ∀ c ∈ cs, lower c.name = b!"script" ∨ lower c.name = b!"function" := by
+  have hot : otypeOf 0xF5 = some .function := by decide
+  have hexec : ∃ cs, execCmd cfg.x e.obj = some cs ∧ ∀ c ∈ cs, lower c.name = b!"script" ∨ lower c.name = b!"function" := by
+    unfold execCmd
+    simp only [hrt, hot]
+    split
+    · exact ⟨_, rfl, fun c hc => by simp only [List.mem_singleton] at hc; subst hc; exact Or.inr (show lower b!"FUNCTION" = b!"function" by decide)⟩
+    · exact ⟨[], rfl, fun c hc => by simp at hc⟩
+  obtain ⟨cs, hcs, hn⟩ := hexec
+  refine ⟨cs, ?_, hn⟩
+  simp only [replayEntry, hrt, hot, true_or, if_true, hcs]
+
+/-- an AUX entry: at most a DB switch and `SCRIPT LOAD`; no keyspace changes -/
+theorem workerStep_aux (cfg : RCfg) (w : Worker) (ex : Exists) (e : Entry) (T : TState) (db : Nat)
+    (htick : cfg.tick = 0) (hdb : e.db = (db : Int)) (hrt : e.obj.rtype = 0xFA) (hcur : w.cur = T.cur)
+    (hpos : cfg.filterDb (db : Int) = false → 0 ≤ mapDb cfg (db : Int)) :
+    ∃ w' log T', workerStep cfg w ex e = (w', ex, true) ∧ w'.log = w.log ++ log ∧
+      applyReqs T log = some T' ∧ T'.dbs = T.dbs ∧ w'.cur = T'.cur := by
+  cases hfd : cfg.filterDb (db : Int) with
+  | true => exact ⟨w, [], T, workerStep_skipDb cfg w ex e db hdb hfd, by simp, rfl, rfl, hcur⟩
+  | false =>
+    cases hfk : cfg.filterKey e.key with
+    | true =>
+      obtain ⟨w', log, h1, h2, h3, h4⟩ := workerStep_skipKey cfg w ex e T db hdb hfd hfk hcur (hpos hfd)
+      exact ⟨w', log, _, h1, h2, h4, rfl, h3⟩
+    | false =>
+      obtain ⟨cs, hcs, hn⟩ := replay_aux cfg (mapDb cfg (db : Int)) ex e hrt
+      obtain ⟨w', log, h1, h2, h3, h4⟩ := workerStep_reqs cfg w ex e T _ db cs ex htick hdb hfd hfk hcur (hpos hfd) hcs
+        (applyReqs_noop cs _ hn)
+      exact ⟨w', log, _, h1, h2, h4, rfl, h3⟩
+
+/-- a function library: `FUNCTION RESTORE` at most; no DB switch, no keyspace changes -/
+theorem workerStep_function (cfg : RCfg) (w : Worker) (ex : Exists) (e : Entry) (T : TState)
+    (htick : cfg.tick = 0) (hdb : e.db = -1) (hrt : e.obj.rtype = 0xF5) (hcur : w.cur = T.cur) :
+    ∃ w' log T', workerStep cfg w ex e = (w', ex, true) ∧ w'.log = w.log ++ log ∧
+      applyReqs T log = some T' ∧ T'.dbs = T.dbs ∧ w'.cur = T'.cur := by
+  have hsel : afterSelect cfg w e = w := by simp [afterSelect, hdb]
+  cases hfk : cfg.filterKey e.key with
+  | true =>
+    refine ⟨w, [], T, ?_, by simp, rfl, rfl, hcur⟩
+    rw [workerStep_eq]
+    simp [hdb, hfk, hsel]
+  | false =>
+    obtain ⟨cs, hcs, hn⟩ := replay_function cfg w.cur ex e hrt
+    refine ⟨{ w with log := w.log ++ cs }, cs, T, ?_, rfl, applyReqs_noop cs T hn, rfl, hcur⟩
+    rw [workerStep_eq]
+    simp only [hdb, ne_eq, not_true_eq_false, false_and, if_false, hfk, Bool.false_eq_true, hsel,
+      cfg_tick0 cfg htick, hcs]
+
+/-! ## a key item on the worker -/
+
+/-- the target knows at least the keys the tool's existence table knows -/
+def ExSub (ex : Exists) (T : TState) : Prop :=
+  ∀ D k, ex.has D k = true → (RedisSem.get (T.dbs D) k).isSome = true
+
+/-- the hash under construction: absent while no pair has arrived -/
+def hashSt (ks0 : Keyspace) (key : Bytes) (l : List (Bytes × Bytes)) (ttl : Nat) : Keyspace :=
+  if l = [] then ks0 else ks0 ++ [(key, .hash l, ttl)]
+
+structure IsChunk (db : Nat) (key : Bytes) (exp : Nat) (e : Entry) : Prop where
+  hkey : e.key = key
+  hdb : e.db = (db : Int)
+  hexp : e.expireAt = exp
+  hokey : e.obj.key = key
+  hrt : e.obj.rtype = 4
+  hsp : e.obj.isSplited = true
+  hsome : (hashPairs e.obj).isSome = true
+
+theorem keyCmd_chunk (fb : Bool) (key : Bytes) (ps : List (Bytes × Bytes)) (c1 : Prop) [Decidable c1] (t : Bytes) :
+    ∀ c ∈ (if fb then [cmdB b!"exists" [key]] else []) ++ ps.map (fun q => cmdB b!"HSET" [key, q.1, q.2]) ++
+      (if c1 then [cmdB b!"pexpire" [key, t]] else []), keyCmd c := by
+  intro c hc
+  simp only [List.mem_append] at hc
+  rcases hc with (hc | hc) | hc
+  · cases fb
+    · simp at hc
+    · simp only [if_true, List.mem_singleton] at hc; subst hc; exact keyCmd_name _ b!"exists" rfl (by decide)
+  · obtain ⟨q, _, rfl⟩ := List.mem_map.mp hc; exact keyCmd_name _ b!"HSET" rfl (by decide)
+  · split at hc
+    · simp only [List.mem_singleton] at hc; subst hc; exact keyCmd_name _ b!"pexpire" rfl (by decide)
+    · simp at hc
+
+theorem ttlOf_zero (now : Nat) : ttlOf now 0 = 0 := by simp [ttlOf]
+
+theorem chunk_step (cfg : RCfg) (htick : cfg.tick = 0) (hrht : cfg.replaceHashTag = false)
+    (db : Nat) (key : Bytes) (exp : Nat)
+    (hfd : cfg.filterDb (db : Int) = false) (hfk : cfg.filterKey key = false) (hpos : 0 ≤ mapDb cfg (db : Int))
+    (e : Entry) (hc : IsChunk db key exp e) (w : Worker) (ex : Exists) (T : TState)
+    (ks0 : Keyspace) (l : List (Bytes × Bytes))
+    (hcur : w.cur = T.cur) (hst : T.dbs (mapDb cfg (db : Int)) = hashSt ks0 key l (ttlOf cfg.now exp))
+    (hfresh : RedisSem.get ks0 key = none)
+    (hnd : ((l ++ (hashPairs e.obj).getD []).map (·.1)).Nodup)
+    (hprobe : e.obj.firstBin = true → ex.has (mapDb cfg (db : Int)) key = false) :
+    ∃ w' ex' T' log, workerStep cfg w ex e = (w', ex', true) ∧ w'.log = w.log ++ log ∧
+      applyReqs T log = some T' ∧ w'.cur = T'.cur ∧ T'.cur = mapDb cfg (db : Int) ∧
+      ExGrows ex ex' (mapDb cfg (db : Int)) key ∧
+      ∀ D, T'.dbs D = if D = mapDb cfg (db : Int)
+        then hashSt ks0 key (l ++ (hashPairs e.obj).getD []) (ttlOf cfg.now exp) else T.dbs D := by
+  obtain ⟨ps, hps⟩ := Option.isSome_iff_exists.mp hc.hsome
+  rw [hps] at hnd ⊢
+  simp only [Option.getD_some] at hnd ⊢
+  obtain ⟨ex', hrep, hgrow⟩ := replay_chunk cfg (mapDb cfg (db : Int)) ex e key ps hc.hkey hc.hokey hc.hrt hc.hsp hps hrht hprobe
+  rw [hc.hexp] at hrep
+  have happ := apply_chunk ks0 key l ps e.obj.firstBin exp (ttlOf cfg.now exp) hfresh hnd
+    (fun h0 => by rw [h0]; exact ttlOf_zero _)
+  obtain ⟨w', log, h1, h2, h3, h4⟩ := workerStep_apply cfg w ex e T db _ ex' _ htick hc.hdb hfd (by rw [hc.hkey]; exact hfk)
+    hcur hpos hrep (keyCmd_chunk _ _ _ _ _) (by rw [hst]; exact happ)
+  refine ⟨w', ex', _, log, h1, h2, h4, h3, rfl, hgrow, ?_⟩
+  intro D
+  simp only [TState.setDb, hashSt]
+
+/-- the continuation chunks of a value -/
+theorem chunks_tail (cfg : RCfg) (htick : cfg.tick = 0) (hrht : cfg.replaceHashTag = false)
+    (db : Nat) (key : Bytes) (exp : Nat)
+    (hfd : cfg.filterDb (db : Int) = false) (hfk : cfg.filterKey key = false) (hpos : 0 ≤ mapDb cfg (db : Int))
+    (ks0 : Keyspace) (hfresh : RedisSem.get ks0 key = none) :
+    ∀ (tl : List Entry) (w : Worker) (ex : Exists) (T : TState) (l : List (Bytes × Bytes)),
+      (∀ e ∈ tl, IsChunk db key exp e ∧ e.obj.firstBin = false) →
+      w.cur = T.cur → T.dbs (mapDb cfg (db : Int)) = hashSt ks0 key l (ttlOf cfg.now exp) →
+      ((l ++ tl.flatMap (fun e => (hashPairs e.obj).getD [])).map (·.1)).Nodup →
+      ∃ w' ex' T' log, runOne cfg tl w ex = (w', ex', true) ∧ w'.log = w.log ++ log ∧
+        applyReqs T log = some T' ∧ w'.cur = T'.cur ∧
+        ExGrows ex ex' (mapDb cfg (db : Int)) key ∧
+        ∀ D, T'.dbs D = if D = mapDb cfg (db : Int)
+          then hashSt ks0 key (l ++ tl.flatMap (fun e => (hashPairs e.obj).getD [])) (ttlOf cfg.now exp)
+          else T.dbs D := by
+  intro tl
+  induction tl with
+  | nil =>
+    intro w ex T l _ hcur hst _
+    refine ⟨w, ex, T, [], rfl, by simp, rfl, hcur, exGrows_refl _ _ _, ?_⟩
+    intro D
+    by_cases hD : D = mapDb cfg (db : Int)
+    · subst hD; simp [hst]
+    · simp [hD]
+  | cons e tl ih =>
+    intro w ex T l hall hcur hst hnd
+    have he := hall e (List.mem_cons_self ..)
+    simp only [List.flatMap_cons, ← List.append_assoc] at hnd ⊢
+    have hnd1 : ((l ++ (hashPairs e.obj).getD []).map (·.1)).Nodup := by
+      rw [List.map_append] at hnd
+      exact (List.nodup_append.mp hnd).1
+    obtain ⟨w1, ex1, T1, log1, hs1, hl1, ha1, hc1, _, hg1, hd1⟩ := chunk_step cfg htick hrht db key exp hfd hfk hpos e he.1
+      w ex T ks0 l hcur hst hfresh hnd1 (fun h => by rw [he.2] at h; cases h)
+    obtain ⟨w2, ex2, T2, log2, hs2, hl2, ha2, hc2, hg2, hd2⟩ := ih w1 ex1 T1 _
+      (fun x hx => hall x (List.mem_cons_of_mem _ hx)) hc1 (by rw [hd1]; simp) hnd
+    refine ⟨w2, ex2, T2, log1 ++ log2, ?_, ?_, ?_, hc2, exGrows_trans hg1 hg2, ?_⟩
+    · simp only [runOne, hs1, if_true]; exact hs2
+    · rw [hl2, hl1, List.append_assoc]
+    · rw [applyReqs_append, ha1]; simpa using ha2
+    · intro D
+      rw [hd2 D]
+      by_cases hD : D = mapDb cfg (db : Int)
+      · simp [hD]
+      · simp [hD, hd1 D]
+
+theorem runOne_skipDb (cfg : RCfg) (db : Nat) (hfd : cfg.filterDb (db : Int) = true) :
+    ∀ (ces : List Entry) (w : Worker) (ex : Exists), (∀ e ∈ ces, e.db = (db : Int)) →
+      runOne cfg ces w ex = (w, ex, true) := by
+  intro ces
+  induction ces with
+  | nil => intro w ex _; rfl
+  | cons e ces ih =>
+    intro w ex h
+    simp only [runOne, workerStep_skipDb cfg w ex e db (h e (List.mem_cons_self ..)) hfd, if_true]
+    exact ih w ex (fun x hx => h x (List.mem_cons_of_mem _ hx))
+
+theorem runOne_skipKey (cfg : RCfg) (db : Nat) (key : Bytes) (hfd : cfg.filterDb (db : Int) = false)
+    (hfk : cfg.filterKey key = true) (hpos : 0 ≤ mapDb cfg (db : Int)) :
+    ∀ (ces : List Entry) (w : Worker) (ex : Exists) (T : TState),
+      (∀ e ∈ ces, e.key = key ∧ e.db = (db : Int)) → w.cur = T.cur →
+      ∃ w' log T', runOne cfg ces w ex = (w', ex, true) ∧ w'.log = w.log ++ log ∧
+        applyReqs T log = some T' ∧ w'.cur = T'.cur ∧ ∀ D, T'.dbs D = T.dbs D := by
+  intro ces
+  induction ces with
+  | nil => intro w ex T _ hcur; exact ⟨w, [], T, rfl, by simp, rfl, hcur, fun _ => rfl⟩
+  | cons e ces ih =>
+    intro w ex T h hcur
+    have he := h e (List.mem_cons_self ..)
+    obtain ⟨w1, log1, hs1, hl1, hc1, ha1⟩ := workerStep_skipKey cfg w ex e T db he.2 hfd (by rw [he.1]; exact hfk) hcur hpos
+    obtain ⟨w2, log2, T2, hs2, hl2, ha2, hc2, hd2⟩ := ih w1 ex { T with cur := mapDb cfg (db : Int) }
+      (fun x hx => h x (List.mem_cons_of_mem _ hx)) hc1
+    refine ⟨w2, log1 ++ log2, T2, ?_, ?_, ?_, hc2, hd2⟩
+    · simp only [runOne, hs1, if_true]; exact hs2
+    · rw [hl2, hl1, List.append_assoc]
+    · rw [applyReqs_append, ha1]; simpa using ha2
+
+theorem get_append_self (ks : Keyspace) (x : Bytes × Val × Nat) :
+    (RedisSem.get (ks ++ [x]) x.1).isSome = true := by
+  unfold RedisSem.get
+  rw [List.find?_append]
+  cases hf : ks.find? (fun e => e.1 == x.1) with
+  | some y => simp
+  | none => simp
+
+theorem exSub_keep {ex : Exists} {T T' : TState} (h : ExSub ex T) (hd : ∀ D, T'.dbs D = T.dbs D) : ExSub ex T' := by
+  intro D k hk
+  rw [hd D]; exact h D k hk
+
+theorem exSub_step {ex ex' : Exists} {T T' : TState} {D0 : Int} {x : Bytes × Val × Nat}
+    (h : ExSub ex T) (hg : ExGrows ex ex' D0 x.1)
+    (hd : ∀ D, T'.dbs D = if D = D0 then T.dbs D ++ [x] else T.dbs D) : ExSub ex' T' := by
+  intro D k hk
+  rw [hd D]
+  rcases hg D k hk with h1 | ⟨rfl, rfl⟩
+  · have := h D k h1
+    split
+    · exact get_append_isSome _ _ _ this
+    · exact this
+  · simp only [if_true]
+    exact get_append_self _ _
+
+theorem pairs_hashTable (f : LenForm) (items : List (SE × SE)) :
+    (ObjE.hashTable f items).value = .hash (pairVals items) ∧
+    (ObjE.hashTable f items).members = (pairVals items).map (·.1) := ⟨rfl, rfl⟩
+
+/-- all entries of one key item on the single worker, seen by the target -/
+theorem key_step (cfg : RCfg) (htick : cfg.tick = 0) (hrht : cfg.replaceHashTag = false)
+    (db : Nat) (k : KeyE) (ces : List Entry) (hke : KeyEntries db k ces)
+    (hwf : k.wf) (hk : k.obj.kind ≠ .other) (hne : k.obj.nonempty) (hd : k.obj.members.Nodup)
+    (hload : cfg.enableRestore = true → typeLoadable cfg.x.tgtMajor k.obj.rtype = true)
+    (hpos : cfg.filterDb (db : Int) = false → 0 ≤ mapDb cfg (db : Int))
+    (w : Worker) (ex : Exists) (T : TState) (hcur : w.cur = T.cur) (hsub : ExSub ex T)
+    (hfresh : replayed cfg (db, k) = true → RedisSem.get (T.dbs (mapDb cfg (db : Int))) k.key.val = none) :
+    ∃ w' ex' T' log, runOne cfg ces w ex = (w', ex', true) ∧ w'.log = w.log ++ log ∧
+      applyReqs T log = some T' ∧ w'.cur = T'.cur ∧ ExSub ex' T' ∧
+      ((replayed cfg (db, k) = false ∧ ∀ D, T'.dbs D = T.dbs D) ∨
+       (replayed cfg (db, k) = true ∧ ∃ x, Holds cfg (db, k) x ∧
+          ∀ D, T'.dbs D = if D = mapDb cfg (db : Int) then T.dbs D ++ [x] else T.dbs D)) := by
+  have hall : ∀ e ∈ ces, e.key = k.key.val ∧ e.db = (db : Int) := by
+    intro e he
+    rcases hke with ⟨e0, rfl, h0, _⟩ | ⟨f, items, e0, tl, _, hces, hc, _⟩
+    · simp only [List.mem_singleton] at he; subst he; exact ⟨h0.1, h0.2.1⟩
+    · have := (hc e he).1; exact ⟨this.1, this.2.1⟩
+  cases hfd : cfg.filterDb (db : Int) with
+  | true =>
+    have hrep : replayed cfg (db, k) = false := by simp [replayed, hfd]
+    refine ⟨w, ex, T, [], runOne_skipDb cfg db hfd ces w ex (fun e he => (hall e he).2), by simp, rfl, hcur, hsub,
+      Or.inl ⟨hrep, fun _ => rfl⟩⟩
+  | false =>
+    have hpos' := hpos hfd
+    cases hfk : cfg.filterKey k.key.val with
+    | true =>
+      have hrep : replayed cfg (db, k) = false := by simp [replayed, hfk]
+      obtain ⟨w', log, T', h1, h2, h3, h4, h5⟩ := runOne_skipKey cfg db k.key.val hfd hfk hpos' ces w ex T hall hcur
+      exact ⟨w', ex, T', log, h1, h2, h3, h4, exSub_keep hsub h5, Or.inl ⟨hrep, h5⟩⟩
+    | false =>
+      have hrep : replayed cfg (db, k) = true := by simp [replayed, hfd, hfk]
+      have hfr := hfresh hrep
+      have hex : ex.has (mapDb cfg (db : Int)) k.key.val = false := by
+        cases h : ex.has (mapDb cfg (db : Int)) k.key.val with
+        | false => rfl
+        | true => have := hsub _ _ h; rw [hfr] at this; cases this
+      rcases hke with ⟨e, rfl, ⟨hk1, hk2, hk3⟩, hobj⟩ | ⟨f, items, e0, tl, hobj, hces, hc, hfb0, hfbtl, hflat⟩
+      · -- ONE entry carrying the whole value
+        by_cases hv : viaRestore cfg k.obj
+        · obtain ⟨opts, ex', hrp, hg⟩ := replay_restore cfg (mapDb cfg (db : Int)) ex e k.key.val k.obj hobj hk1 hk hv
+            (hload hv.1) hrht hex
+          have happ : applyCmds (T.dbs (mapDb cfg (db : Int)))
+              [cmdB b!"restore" (k.key.val :: natToDec (ttlOf cfg.now e.expireAt) ::
+                createValueDump k.obj.rtype k.obj.ser :: opts)] = some (T.dbs (mapDb cfg (db : Int)) ++
+                  [(k.key.val, .restored (createValueDump k.obj.rtype k.obj.ser), ttlOf cfg.now e.expireAt)]) := by
+            simp only [applyCmds, restore_fresh _ _ _ _ _ hfr]
+          obtain ⟨w', log, h1, h2, h3, h4⟩ := workerStep_apply cfg w ex e T db _ ex' _ htick hk2 hfd
+            (by rw [hk1]; exact hfk) hcur hpos' hrp
+            (fun c hc => by simp only [List.mem_singleton] at hc; subst hc; exact keyCmd_name _ b!"restore" rfl (by decide))
+            happ
+          have hdbs : ∀ D, (TState.setDb { T with cur := mapDb cfg (db : Int) } (mapDb cfg (db : Int))
+              (T.dbs (mapDb cfg (db : Int)) ++ [(k.key.val, Val.restored (createValueDump k.obj.rtype k.obj.ser),
+                ttlOf cfg.now e.expireAt)])).dbs D =
+              if D = mapDb cfg (db : Int) then T.dbs D ++ [(k.key.val, Val.restored (createValueDump k.obj.rtype k.obj.ser),
+                ttlOf cfg.now e.expireAt)] else T.dbs D := by
+            intro D
+            by_cases hD : D = mapDb cfg (db : Int)
+            · subst hD; simp [TState.setDb]
+            · simp [TState.setDb, hD]
+          refine ⟨w', ex', _, log, ?_, h2, h4, h3, exSub_step hsub hg hdbs, Or.inr ⟨hrep, _, ?_, hdbs⟩⟩
+          · simp only [runOne, h1, if_true]
+          · exact ⟨rfl, by rw [hk3], Or.inr ⟨rfl, hv⟩⟩
+        · obtain ⟨ex', hrp, hg⟩ := replay_expand cfg (mapDb cfg (db : Int)) ex e k.key.val k.obj hobj hk1 hwf.2.1 hk hv hrht hex
+          have happ := apply_expand (T.dbs (mapDb cfg (db : Int))) k.key.val k.obj e.expireAt (ttlOf cfg.now e.expireAt)
+            hk hne hd hfr (fun h0 => by rw [h0]; exact ttlOf_zero _)
+          obtain ⟨w', log, h1, h2, h3, h4⟩ := workerStep_apply cfg w ex e T db _ ex' _ htick hk2 hfd
+            (by rw [hk1]; exact hfk) hcur hpos' hrp
+            (by
+              intro c hc
+              simp only [List.mem_append] at hc
+              rcases hc with (hc | hc) | hc
+              · simp only [List.mem_singleton] at hc; subst hc; exact keyCmd_name _ b!"exists" rfl (by decide)
+              · exact cmds_keyCmd _ _ c hc
+              · split at hc
+                · simp only [List.mem_singleton] at hc; subst hc; exact keyCmd_name _ b!"pexpire" rfl (by decide)
+                · simp at hc)
+            happ
+          have hdbs : ∀ D, (TState.setDb { T with cur := mapDb cfg (db : Int) } (mapDb cfg (db : Int))
+              (T.dbs (mapDb cfg (db : Int)) ++ [(k.key.val, k.obj.value, ttlOf cfg.now e.expireAt)])).dbs D =
+              if D = mapDb cfg (db : Int) then T.dbs D ++ [(k.key.val, k.obj.value, ttlOf cfg.now e.expireAt)]
+              else T.dbs D := by
+            intro D
+            by_cases hD : D = mapDb cfg (db : Int)
+            · subst hD; simp [TState.setDb]
+            · simp [TState.setDb, hD]
+          refine ⟨w', ex', _, log, ?_, h2, h4, h3, exSub_step hsub hg hdbs, Or.inr ⟨hrep, _, ?_, hdbs⟩⟩
+          · simp only [runOne, h1, if_true]
+          · exact ⟨rfl, by rw [hk3], Or.inl ⟨rfl, Or.inl hv⟩⟩
+      · -- a hash table in several chunks
+        subst hces
+        have hchunk : ∀ e ∈ e0 :: tl, IsChunk db k.key.val k.exp.at e := by
+          intro e he
+          obtain ⟨⟨a1, a2, a3⟩, a4, a5, a6, a7⟩ := hc e he
+          exact ⟨a1, a2, a3, a4, a5, a6, a7⟩
+        obtain ⟨hval, hmem⟩ := pairs_hashTable f items
+        rw [hobj] at hd hne
+        rw [hmem] at hd
+        have hpne : pairVals items ≠ [] := by
+          simpa [ObjE.nonempty, ObjE.kind, ObjE.pairs, pairVals] using hne
+        simp only [List.flatMap_cons] at hflat
+        have hnd0 : ((([] : List (Bytes × Bytes)) ++ (hashPairs e0.obj).getD []).map (fun q => q.1)).Nodup := by
+          rw [← hflat, List.map_append] at hd
+          simpa using (List.nodup_append.mp hd).1
+        obtain ⟨w1, ex1, T1, log1, hs1, hl1, ha1, hc1, _, hg1, hd1⟩ := chunk_step cfg htick hrht db k.key.val k.exp.at hfd hfk
+          hpos' e0 (hchunk e0 (List.mem_cons_self ..)) w ex T (T.dbs (mapDb cfg (db : Int))) [] hcur (by simp [hashSt])
+          hfr hnd0 (fun _ => hex)
+        obtain ⟨w2, ex2, T2, log2, hs2, hl2, ha2, hc2, hg2, hd2⟩ := chunks_tail cfg htick hrht db k.key.val k.exp.at hfd hfk
+          hpos' (T.dbs (mapDb cfg (db : Int))) hfr tl w1 ex1 T1 ([] ++ (hashPairs e0.obj).getD [])
+          (fun e he => ⟨hchunk e (List.mem_cons_of_mem _ he), hfbtl e he⟩) hc1 (by rw [hd1]; simp)
+          (by simpa [hflat] using hd)
+        have hdbs : ∀ D, T2.dbs D = if D = mapDb cfg (db : Int)
+            then T.dbs D ++ [(k.key.val, k.obj.value, ttlOf cfg.now k.exp.at)] else T.dbs D := by
+          intro D
+          rw [hd2 D]
+          by_cases hD : D = mapDb cfg (db : Int)
+          · subst hD
+            simp only [if_true, List.nil_append, hflat, hashSt, hpne, if_false, hobj, hval]
+          · simp [hD, hd1 D]
+        refine ⟨w2, ex2, T2, log1 ++ log2, ?_, ?_, ?_, hc2, exSub_step hsub (exGrows_trans hg1 hg2) hdbs,
+          Or.inr ⟨hrep, _, ?_, hdbs⟩⟩
+        · simp only [runOne, hs1, if_true]; exact hs2
+        · rw [hl2, hl1, List.append_assoc]
+        · rw [applyReqs_append, ha1]; simpa using ha2
+        · exact ⟨rfl, rfl, Or.inl ⟨rfl, Or.inr (by rw [hobj]; rfl)⟩⟩
+
+/-! ## the whole item list on the single worker -/
+
+theorem keysFrom_skip (db : Nat) (i : Item) (items : List Item) (h : ∀ k, i ≠ .key k) :
+    keysFrom db (i :: items) = keysFrom (dbAfter db i) items := by
+  cases i <;> first | rfl | exact absurd rfl (h _)
+
+theorem replay_trace (cfg : RCfg) (htick : cfg.tick = 0) (hrht : cfg.replaceHashTag = false)
+    (hpos : ∀ n : Nat, cfg.filterDb (n : Int) = false → 0 ≤ mapDb cfg (n : Int))
+    {db : Nat} {items : List Item} {es : List Entry} (htr : Trace db items es) :
+    (∀ i ∈ items, i.wf) → (∀ i ∈ items, i.carried) →
+    (∀ p ∈ keysFrom db items, cfg.enableRestore = true → typeLoadable cfg.x.tgtMajor p.2.obj.rtype = true) →
+    ∀ (w : Worker) (ex : Exists) (T : TState), w.cur = T.cur → ExSub ex T →
+    (∀ p ∈ keysFrom db items, replayed cfg p = true →
+      RedisSem.get (T.dbs (mapDb cfg (p.1 : Int))) p.2.key.val = none) →
+    (((keysFrom db items).filter (replayed cfg)).map (fun p => (mapDb cfg (p.1 : Int), p.2.key.val))).Nodup →
+    ∃ w' ex' T' log, runOne cfg es w ex = (w', ex', true) ∧ w'.log = w.log ++ log ∧
+      applyReqs T log = some T' ∧
+      ∀ D, ∃ l, T'.dbs D = T.dbs D ++ l ∧
+        Pointwise (Holds cfg) (expectedKeys cfg D (keysFrom db items)) l := by
+  induction htr with
+  | nil db =>
+    intro _ _ _ w ex T _ _ _ _
+    exact ⟨w, ex, T, [], rfl, by simp, rfl, fun D => ⟨[], by simp, Pointwise.nil⟩⟩
+  | @skip db i items es hs _ ih =>
+    intro hwf hcar hload w ex T hcur hsub hfresh hnd
+    have hk : keysFrom db (i :: items) = keysFrom (dbAfter db i) items :=
+      keysFrom_skip db i items (fun k h => by subst h; simp [Item.isSkip] at hs)
+    rw [hk] at hload hfresh hnd
+    simp only [hk]
+    exact ih (fun x hx => hwf x (List.mem_cons_of_mem _ hx)) (fun x hx => hcar x (List.mem_cons_of_mem _ hx))
+      hload w ex T hcur hsub hfresh hnd
+  | @aux db k v items es e hdb hrt _ ih =>
+    intro hwf hcar hload w ex T hcur hsub hfresh hnd
+    have hk : keysFrom db (Item.aux k v :: items) = keysFrom db items := rfl
+    rw [hk] at hload hfresh hnd
+    simp only [hk]
+    obtain ⟨w1, log1, T1, hs1, hl1, ha1, hd1, hc1⟩ := workerStep_aux cfg w ex e T db htick hdb hrt hcur (hpos db)
+    obtain ⟨w2, ex2, T2, log2, hs2, hl2, ha2, hfin⟩ := ih (fun x hx => hwf x (List.mem_cons_of_mem _ hx))
+      (fun x hx => hcar x (List.mem_cons_of_mem _ hx)) hload w1 ex T1 hc1
+      (exSub_keep hsub (fun D => by rw [hd1])) (by rw [hd1]; exact hfresh) hnd
+    refine ⟨w2, ex2, T2, log1 ++ log2, ?_, ?_, ?_, ?_⟩
+    · simp only [runOne, hs1, if_true]; exact hs2
+    · rw [hl2, hl1, List.append_assoc]
+    · rw [applyReqs_append, ha1]; simpa using ha2
+    · intro D; rw [← hd1]; exact hfin D
+  | @function db code items es e hdb hrt _ ih =>
+    intro hwf hcar hload w ex T hcur hsub hfresh hnd
+    have hk : keysFrom db (Item.function code :: items) = keysFrom db items := rfl
+    rw [hk] at hload hfresh hnd
+    simp only [hk]
+    obtain ⟨w1, log1, T1, hs1, hl1, ha1, hd1, hc1⟩ := workerStep_function cfg w ex e T htick hdb hrt hcur
+    obtain ⟨w2, ex2, T2, log2, hs2, hl2, ha2, hfin⟩ := ih (fun x hx => hwf x (List.mem_cons_of_mem _ hx))
+      (fun x hx => hcar x (List.mem_cons_of_mem _ hx)) hload w1 ex T1 hc1
+      (exSub_keep hsub (fun D => by rw [hd1])) (by rw [hd1]; exact hfresh) hnd
+    refine ⟨w2, ex2, T2, log1 ++ log2, ?_, ?_, ?_, ?_⟩
+    · simp only [runOne, hs1, if_true]; exact hs2
+    · rw [hl2, hl1, List.append_assoc]
+    · rw [applyReqs_append, ha1]; simpa using ha2
+    · intro D; rw [← hd1]; exact hfin D
+  | @key db k items ces es hke _ ih =>
+    intro hwf hcar hload w ex T hcur hsub hfresh hnd
+    have hk : keysFrom db (Item.key k :: items) = (db, k) :: keysFrom db items := rfl
+    rw [hk] at hload hfresh hnd
+    simp only [hk]
+    obtain ⟨hkind, hne, hd⟩ := hcar (.key k) (List.mem_cons_self ..)
+    have hwfk : k.wf := hwf (.key k) (List.mem_cons_self ..)
+    obtain ⟨w1, ex1, T1, log1, hs1, hl1, ha1, hc1, hsub1, hcase⟩ := key_step cfg htick hrht db k ces hke hwfk hkind hne hd
+      (hload (db, k) (List.mem_cons_self ..)) (hpos db) w ex T hcur hsub (hfresh (db, k) (List.mem_cons_self ..))
+    have hload' : ∀ p ∈ keysFrom db items, cfg.enableRestore = true → typeLoadable cfg.x.tgtMajor p.2.obj.rtype = true :=
+      fun p hp => hload p (List.mem_cons_of_mem _ hp)
+    have hwf' := fun x hx => hwf x (List.mem_cons_of_mem _ hx)
+    have hcar' := fun x hx => hcar x (List.mem_cons_of_mem _ hx)
+    rcases hcase with ⟨hrep, hdbs⟩ | ⟨hrep, x, hx, hdbs⟩
+    · -- filtered out: the target is untouched
+      have hnd' : (((keysFrom db items).filter (replayed cfg)).map
+          (fun p => (mapDb cfg (p.1 : Int), p.2.key.val))).Nodup := by
+        simpa [List.filter_cons, hrep] using hnd
+      obtain ⟨w2, ex2, T2, log2, hs2, hl2, ha2, hfin⟩ := ih hwf' hcar' hload' w1 ex1 T1 hc1 hsub1
+        (fun p hp hr => by rw [hdbs]; exact hfresh p (List.mem_cons_of_mem _ hp) hr) hnd'
+      refine ⟨w2, ex2, T2, log1 ++ log2, ?_, ?_, ?_, ?_⟩
+      · rw [runOne_append cfg ces es w ex w1 ex1 hs1]; exact hs2
+      · rw [hl2, hl1, List.append_assoc]
+      · rw [applyReqs_append, ha1]; simpa using ha2
+      · intro D
+        obtain ⟨l, hl, hf⟩ := hfin D
+        refine ⟨l, by rw [hl, hdbs], ?_⟩
+        simpa [expectedKeys, List.filter_cons, hrep] using hf
+    · -- replayed into `mapDb db`
+      have hnd0 : ((mapDb cfg (db : Int), k.key.val) :: ((keysFrom db items).filter (replayed cfg)).map
+          (fun p => (mapDb cfg (p.1 : Int), p.2.key.val))).Nodup := by
+        simpa [List.filter_cons, hrep] using hnd
+      obtain ⟨hnotin, hnd'⟩ := List.nodup_cons.mp hnd0
+      obtain ⟨w2, ex2, T2, log2, hs2, hl2, ha2, hfin⟩ := ih hwf' hcar' hload' w1 ex1 T1 hc1 hsub1
+        (by
+          intro p hp hr
+          rw [hdbs]
+          have hf := hfresh p (List.mem_cons_of_mem _ hp) hr
+          by_cases hD : mapDb cfg (p.1 : Int) = mapDb cfg (db : Int)
+          · simp only [hD, if_true]
+            rw [get_append_ne _ _ _ ?_]
+            · rw [← hD]; exact hf
+            · intro heq
+              apply hnotin
+              rw [List.mem_map]
+              exact ⟨p, List.mem_filter.mpr ⟨hp, hr⟩, by rw [hD, ← heq, hx.1]⟩
+          · simp only [hD, if_false]; exact hf) hnd'
+      refine ⟨w2, ex2, T2, log1 ++ log2, ?_, ?_, ?_, ?_⟩
+      · rw [runOne_append cfg ces es w ex w1 ex1 hs1]; exact hs2
+      · rw [hl2, hl1, List.append_assoc]
+      · rw [applyReqs_append, ha1]; simpa using ha2
+      · intro D
+        obtain ⟨l, hl, hf⟩ := hfin D
+        rw [hdbs D] at hl
+        by_cases hD : D = mapDb cfg (db : Int)
+        · refine ⟨x :: l, by rw [hl]; simp [hD], ?_⟩
+          have : expectedKeys cfg D ((db, k) :: keysFrom db items) = (db, k) :: expectedKeys cfg D (keysFrom db items) := by
+            simp [expectedKeys, hrep, hD]
+          rw [this]
+          exact Pointwise.cons hx hf
+        · refine ⟨l, by rw [hl]; simp [hD], ?_⟩
+          have : expectedKeys cfg D ((db, k) :: keysFrom db items) = expectedKeys cfg D (keysFrom db items) := by
+            have hne : ¬ (mapDb cfg (db : Int) = D) := fun h => hD h.symm
+            simp [expectedKeys, hne]
+          rw [this]
+          exact hf
+
+/-! ## the whole file -/
+
+theorem parseRdb_file (d : DCfg) (f : FileE) (hwf : f.wf) (hcar : ∀ i ∈ f.items, i.carried)
+    (hfoot : f.footer ≠ .bad) :
+    ∃ es, parseRdb d (rdbFile f) = (es, true) ∧ Trace 0 f.items es := by
+  obtain ⟨h1, h13, hitems⟩ := hwf
+  have hft := footer_file f hfoot
+  have hie := inputEnds_file f
+  have hsplit : ∃ foot, rdbFile f = f.body ++ foot := by
+    unfold rdbFile; exact ⟨_, rfl⟩
+  obtain ⟨foot, hfile⟩ := hsplit
+  have hdrop : (rdbFile f).drop f.body.length = foot := by rw [hfile]; simp
+  rw [hdrop] at hft hie
+  have hfile' : rdbFile f = b!"REDIS" ++ verDigits f.version ++ (f.items.flatMap Item.enc ++ 0xFF :: foot) := by
+    rw [hfile]; simp [FileE.body]
+  have hlen : (f.items.flatMap Item.enc).length + 1 ≤ (rdbFile f).length + 1 := by
+    rw [hfile']; simp only [List.length_append]; omega
+  obtain ⟨_, es, hpl, htr⟩ := parse_items d (rdbFile f) foot f.items hitems hcar {} ((rdbFile f).length + 1)
+    ⟨rfl, rfl⟩ hlen
+  refine ⟨es, ?_, htr⟩
+  unfold parseRdb
+  have hh : header (rdbFile f) = some (f.version, f.items.flatMap Item.enc ++ 0xFF :: foot) := by
+    rw [hfile']; exact header_file f h1 h13 _
+  simp only [hh, hpl, hft, hie, Bool.and_self]
+
+theorem exSub_nil (T : TState) : ExSub [] T := by
+  intro D k h; simp [Exists.has] at h
+
+/-- `full_sync` with the hypotheses spelled out (Props/C03.lean states it) -/
+theorem full_sync_core (d : DCfg) (cfg : RCfg) (f : FileE)
+    (hwf : f.wf) (hfoot : f.footer ≠ .bad) (hcar : ∀ i ∈ f.items, i.carried)
+    (hpar : cfg.parallel = 1) (htick : cfg.tick = 0) (hrht : cfg.replaceHashTag = false)
+    (hload : ∀ p ∈ f.keys, cfg.enableRestore = true → typeLoadable cfg.x.tgtMajor p.2.obj.rtype = true)
+    (hdb : ∀ n : Nat, cfg.filterDb (n : Int) = false → 0 ≤ mapDb cfg (n : Int))
+    (hdistinct : ((f.keys.filter (replayed cfg)).map (fun p => (mapDb cfg (p.1 : Int), p.2.key.val))).Nodup) :
+    ∃ log T, sendRdb d cfg [] (rdbFile f) = ([log], true) ∧ applyReqs {} log = some T ∧
+      ∀ D, Pointwise (Holds cfg) (expectedKeys cfg D f.keys) (T.dbs D) := by
+  obtain ⟨es, hparse, htr⟩ := parseRdb_file d f hwf hcar hfoot
+  obtain ⟨w', ex', T', log, hrun, hlog, happ, hfin⟩ := replay_trace cfg htick hrht hdb htr hwf.2.2 hcar hload
+    {} [] {} rfl (exSub_nil _) (fun _ _ _ => rfl) hdistinct
+  refine ⟨log, T', ?_, happ, ?_⟩
+  · unfold sendRdb
+    simp only [hparse, hpar, Nat.max_self, List.replicate_one, fanOut_one, hrun, List.map_cons, List.map_nil,
+      Bool.and_self]
+    simpa using hlog
+  · intro D
+    obtain ⟨l, hl, hf⟩ := hfin D
+    have : T'.dbs D = l := by rw [hl]; rfl
+    rw [this]; exact hf
 
 end GunYu.Rdb
